@@ -56,6 +56,17 @@ def check(P: Project, R: Report) -> None:
     _r4_order(P, R)
     _r5_no_invented_message(P, R)
     _r6_outbound_order(P, R)
+    _r7_stdio_inline(P, R)
+
+
+def _r7_stdio_inline(P: Project, R: Report) -> None:
+    """Inbound order on the pipe carrier: the router hands each message to the read stream itself, awaited, before the
+    reader takes the next line — a message parked for later delivery (a backlog, a task) is overtaken by the ones after it."""
+    from ..lift import lift
+
+    lift(P, R, "C05", {"R4"}, "R7",
+         "inbound order on stdio: every message the router is given is on the read stream when the router returns — delivered by the router itself on every path, a full stream included, never left to a task or a backlog (the routing obligations of C05-R4, read here for the clause 'the relative order of notifications and responses is not altered by the carrier')",
+         "stdio: ", min_n=2, suffix=" — what is delivered later is overtaken by the response that follows it on the pipe, while the HTTP carriers deliver the same server output in order")
 
 
 def _r6_outbound_order(P: Project, R: Report) -> None:
